@@ -451,11 +451,60 @@ fn llr_vectors(n: usize, alpha: &[i64]) -> Vec<Vec<f64>> {
         .collect()
 }
 
+/// LLR vectors for matrices too long for the full alphabet power: a few base sign patterns
+/// (codewords and an alternating non-codeword), every single substitution of an alphabet value,
+/// and every substitution in two neighbouring positions.
+fn wide_vectors(m: &Small, alpha: &[i64]) -> Vec<Vec<f64>> {
+    let n = m.n;
+    let mut bases: Vec<u64> = Vec::new();
+    let mut cw = 0u64;
+    // codewords spread over the code: single information-position patterns folded through rows
+    for mask in [0u64, 0x5, 0x2a, 0x333, 0xfff, 0x9249] {
+        let w = mask & ((1u64 << n) - 1);
+        if m.syndrome_ok(w) {
+            bases.push(w);
+        } else {
+            cw = w; // a non-codeword base as well
+        }
+    }
+    bases.push(cw);
+    bases.push(0);
+    bases.push((0..n).filter(|j| j % 2 == 0).fold(0u64, |a, j| a | (1 << j)));
+    bases.sort_unstable();
+    bases.dedup();
+    let mut out = Vec::new();
+    for b in bases {
+        let base: Vec<f64> = (0..n).map(|j| if (b >> j) & 1 == 1 { -2.0 } else { 2.0 }).collect();
+        out.push(base.clone());
+        for p in 0..n {
+            for &v in alpha {
+                let mut x = base.clone();
+                x[p] = v as f64;
+                out.push(x.clone());
+                let q = (p + 1) % n;
+                for &u in alpha {
+                    let mut y = x.clone();
+                    y[q] = u as f64;
+                    out.push(y);
+                }
+            }
+        }
+    }
+    out.sort_by(|a, b| a.partial_cmp(b).unwrap());
+    out.dedup();
+    out
+}
+
 fn equality_case(case: &Case, alpha: &[i64], limits: &[usize], acc: &mut Acc) {
+    let vectors = if case.m.n > 9 { wide_vectors(&case.m, alpha) } else { llr_vectors(case.m.n, alpha) };
+    equality_vectors(case, vectors, limits, acc)
+}
+
+fn equality_vectors(case: &Case, vectors: Vec<Vec<f64>>, limits: &[usize], acc: &mut Acc) {
     // one long-lived decoder per schedule: every call after the first is made on an object
     // that has already decoded other frames (the textbook result does not depend on history)
     let mut reused = [Probed::new(IntMinSum, build(case), false, None), Probed::new(IntMinSum, build(case), true, None)];
-    for llrs in llr_vectors(case.m.n, alpha) {
+    for llrs in vectors {
         for &limit in limits {
             for layered in [false, true] {
                 acc.evals += 1;
@@ -754,6 +803,15 @@ pub fn run(run: &Run) -> i32 {
             for k in 1..4 {
                 let alpha = if run.thorough() { a5.clone() } else if m.n <= 5 { a5.clone() } else { a3.clone() };
                 work.push((Case { m: m.clone(), mname: name.to_string(), order: scrambled(&m, k) }, alpha));
+            }
+        }
+        // check degrees above 8 and above 16, non-monotone (vectors: see wide_vectors)
+        for (name, m) in [
+            ("wide2x12", Small::from_rows(12, &[&[0, 1, 2, 3, 4, 5, 6, 7, 8], &[2, 3, 4, 5, 6, 7, 8, 9, 10, 11]])),
+            ("wide3x20", Small::from_rows(20, &[&[0, 1, 2, 3, 4, 5, 6, 7, 8, 9, 10, 11, 12, 13, 14, 15, 16], &[3, 5, 7, 9, 11, 13, 15, 17, 19], &[1, 2, 3, 4, 5, 6, 7, 8, 9, 10, 11, 12, 13, 14, 15, 17, 18, 19]])),
+        ] {
+            for k in if run.thorough() { vec![0, 1, 2, 3] } else { vec![1, 2] } {
+                work.push((Case { m: m.clone(), mname: name.to_string(), order: scrambled(&m, k) }, if run.thorough() { a5.clone() } else { a3.clone() }));
             }
         }
         extra.insert("equality_cases".into(), json!(work.len()));
